@@ -285,6 +285,37 @@ func c06Local(r *fw.R, d c06Desc, code, rl int) {
 	defer peerEnd.Close()
 	peer := newRawPeer(peerEnd, d.Role, wire.Params{}, d.Seed)
 	peer.AutoClose = true
+	inFlight := ""
+	if (uint64(code)+uint64(rl)+d.Seed)%16 == 0 {
+		// data that was already on its way when the local side decided to close: the peer's messages arrive
+		// between the local Close frame and the peer's echo (more of it than the read limit allows for ONE
+		// message, as several messages or as one that is too big), and are discarded
+		inFlight = []string{"2x20000", "6x9000", "1x100000", "fragmented-50000"}[(uint64(code)/16+d.Seed)%4]
+		peer.OnFrame = func(f wire.Frame) {
+			if f.Op != wire.OpClose {
+				return
+			}
+			switch inFlight {
+			case "2x20000":
+				for i := 0; i < 2; i++ {
+					peer.Send(wire.Data(wire.OpBinary, true, make([]byte, 20000)))
+				}
+			case "6x9000":
+				for i := 0; i < 6; i++ {
+					peer.Send(wire.Data(wire.OpText, true, make([]byte, 9000)))
+				}
+			case "1x100000":
+				peer.Send(wire.Data(wire.OpBinary, true, make([]byte, 100000)))
+			case "fragmented-50000":
+				peer.Send(wire.Data(wire.OpBinary, false, make([]byte, 20000)))
+				peer.Send(wire.Ping([]byte("in between")))
+				peer.Send(wire.Data(wire.OpCont, false, make([]byte, 20000)))
+				peer.Send(wire.Data(wire.OpCont, true, make([]byte, 10000)))
+			}
+		}
+		r.Count("local_closes_with_data_in_flight", 1)
+		r.Key("local/%s/in-flight=%s", d.Role, inFlight)
+	}
 	peer.Start()
 	reason := reasonOf(rl, code)
 	t0 := time.Now()
@@ -321,7 +352,11 @@ func c06Local(r *fw.R, d c06Desc, code, rl int) {
 			r.Violate("C06/close-payload-differs", fmt.Sprintf("%s emitted (%d, %q)", what, gotCode, gotReason), hexdump(pay, 130))
 		}
 		if cerr != nil {
-			r.Violate("C06/close-returned-error", fmt.Sprintf("%s: the peer echoed the code but Close returned: %v", what, cerr), "")
+			sig := "C06/close-returned-error"
+			if inFlight != "" {
+				sig += "/data-in-flight"
+			}
+			r.Violate(sig, fmt.Sprintf("%s (data in flight: %q): the peer echoed the code but Close returned: %v", what, inFlight, cerr), "")
 		}
 		if el > 3*time.Second {
 			r.Inconclusivef("%s took %v against an immediately echoing peer", what, el)
